@@ -173,3 +173,12 @@ pub fn retypes_fk_endpoint(old: &[TableDef], new: &[TableDef]) -> bool {
     }
     false
 }
+
+/// A3 across one step: the tables of two consecutive model sets, taken together, are distinct case-insensitively (a table
+/// re-created under a name that differs only by case exists twice for SQLite while the plan runs)
+pub fn case_clash(old: &[TableDef], new: &[TableDef]) -> bool {
+    let mut names: std::collections::BTreeSet<String> = old.iter().map(|t| t.name.clone()).collect();
+    names.extend(new.iter().map(|t| t.name.clone()));
+    let v: Vec<String> = names.into_iter().collect();
+    !distinct_ci(&v)
+}
